@@ -2,12 +2,15 @@
   C14 — Action selection follows the documented boolean semantics.
   Property theorems only (helper lemmas: FileD/Lemmas/DoIf.lean, FileD/Lemmas/MatchFields.lean).
 
-  `check`  = the model of doif `Checker.Check` as coded (Model/DoIf.lean)
+  `checkSt` = the model of doif `Checker.Check` as coded (Model/DoIf.lean + Model/DoIfSt.lean: it
+              threads which strings earlier nodes unescaped in place); `.1` is the answer
+  `check`   = the same leaves, each looking at a freshly decoded event (no state)
   `spec`   = the naive evaluator written from the documentation (Spec/C14.lean)
   `isMatch`/`specMatch` = the same pair for the legacy match_fields selector.
   All library calls are oracle parameters: every theorem holds for EVERY oracle.
 -/
 import FileD.Lemmas.DoIf
+import FileD.Lemmas.DoIfSt
 import FileD.Lemmas.MatchFields
 namespace FileD.PropsC14
 open FileD FileD.DoIf FileD.MatchFields FileD.SpecC14
@@ -47,27 +50,39 @@ def evF (v : JTree) : JTree := .obj [([102], v)]
 
 /-- the full statement: on every rule tree and every event the code gives the documented answer -/
 def DoIfEqSpec : Prop :=
-  ∀ (o : Oracle) (now : Int) (ev : JTree) (n : Node), check o now ev n = spec o now ev n
+  ∀ (o : Oracle) (now : Int) (ev : JTree) (n : Node), (checkSt o now ev n []).1 = spec o now ev n
 
 /-- **do_if, partial**: for every oracle, every event and every rule tree of ANY depth and width,
     `Checker.Check` as coded — minimum-length early exit, `valuesBySize` buckets, comparing only
-    the first / last `maxValLen` bytes, lower-casing after truncation, short-circuit and/or —
-    equals the naive evaluator of the documentation, provided every field leaf of the tree
-    (`TreeOK`) looks at a scalar / null / absent value and is case-sensitive or has a lower-casing
-    oracle that keeps the lengths of its values and is regular on the field's bytes (`LowerOK`;
-    true of bytes.ToLower on ASCII). Length, timestamp and type leaves need no hypothesis. -/
+    the first / last `maxValLen` bytes, lower-casing after truncation, short-circuit and/or,
+    in-place unescaping — equals the naive evaluator of the documentation, provided (`TreeOK`)
+    every field leaf looks at a scalar / null / absent value and is case-sensitive or has a
+    lower-casing oracle that keeps the lengths of its values and is regular on the field's bytes
+    (`LowerOK`; true of bytes.ToLower on ASCII), and every byte_len_cmp leaf measures a value
+    without JSON escapes (`LenOK`). Timestamp, type, array-length and int leaves need no hypothesis. -/
 theorem doif_check_eq_spec_partial (o : Oracle) (now : Int) (ev : JTree) (n : Node)
-    (h : TreeOK o ev n) : check o now ev n = spec o now ev n :=
-  check_eq_spec_of_ok o now ev n h
+    (h : TreeOK o ev n) : (checkSt o now ev n []).1 = spec o now ev n := by
+  rw [checkSt_fst o now ev n [] h]
+  exact check_eq_spec_of_ok o now ev n h
+
+/-- under the same hypothesis the answer does not depend on the evaluation history: whatever
+    strings earlier checks unescaped (`tch`), the node answers as on a freshly decoded event -/
+theorem doif_answer_independent_of_history (o : Oracle) (now : Int) (ev : JTree) (n : Node)
+    (tch : List Pos) (h : TreeOK o ev n) : (checkSt o now ev n tch).1 = check o now ev n :=
+  checkSt_fst o now ev n tch h
 
 -- non-vacuity: a case-insensitive leaf under `and`/`not`, ASCII lower-casing, satisfies TreeOK
 example : TreeOK oAscii (evF (.str [65, 66, 67]))
     (.and [.field (fld .prefix false [some [97, 98], some [120]]), .not [.field (fld .equal true [none])]]) := by
   refine ⟨⟨rfl, Or.inr ⟨fun b _ => by simp [oAscii], lowerRegular_of_map _ _⟩⟩, ⟨⟨rfl, Or.inl rfl⟩, trivial⟩, trivial⟩
 
-example : check oAscii 0 (evF (.str [65, 66, 67]))
-    (.and [.field (fld .prefix false [some [97, 98], some [120]]), .not [.field (fld .equal true [none])]]) = true := by
+example : (checkSt oAscii 0 (evF (.str [65, 66, 67]))
+    (.and [.field (fld .prefix false [some [97, 98], some [120]]), .not [.field (fld .equal true [none])]]) []).1 = true := by
   decide
+
+example : TreeOK oAscii (evF (.arr [.str [97]]))
+    (.or [.field ⟨.equal, [[103]], true, [some [98]]⟩, .lenCmp ⟨.byte, [[102]], .eq, 5⟩]) :=
+  ⟨⟨rfl, Or.inl rfl⟩, ⟨fun _ t ht => by cases ht; rfl, trivial⟩⟩
 
 /-- **one field leaf**: the as-coded check of a field op on the bytes `Get` returns equals the
     documented predicate, under the leaf's own hypothesis (no tree needed) -/
@@ -78,32 +93,52 @@ theorem doif_field_leaf_eq_spec (o : Oracle) (f : FieldOp) (d : Option Bytes) (h
 example : LowerOK oAscii (fld .suffix false [some [65]]) (some [120, 97]) :=
   Or.inr ⟨fun b _ => by simp [oAscii], lowerRegular_of_map _ _⟩
 
-/-- **length / timestamp / type leaves** give the documented answer on every event, every
-    oracle, unconditionally (after /repo fix 16a8fb0 for empty containers) -/
-theorem doif_other_leaves_eq_spec (o : Oracle) (now : Int) (ev : JTree) (l : LenCmp) (t : TsCmp) (c : TypeCheck) :
-    check o now ev (.lenCmp l) = spec o now ev (.lenCmp l) ∧
-    check o now ev (.tsCmp t) = spec o now ev (.tsCmp t) ∧
-    check o now ev (.checkType c) = spec o now ev (.checkType c) :=
-  ⟨doif_check_eq_spec_partial o now ev _ trivial, doif_check_eq_spec_partial o now ev _ trivial,
+/-- **length / timestamp / type leaves** give the documented answer on every event and every
+    oracle; only byte_len_cmp needs its `LenOK` hypothesis (after /repo fix 16a8fb0 for empty
+    containers nothing else) -/
+theorem doif_other_leaves_eq_spec (o : Oracle) (now : Int) (ev : JTree) (l : LenCmp) (t : TsCmp)
+    (c : TypeCheck) (hl : LenOK l ev) :
+    (checkSt o now ev (.lenCmp l) []).1 = spec o now ev (.lenCmp l) ∧
+    (checkSt o now ev (.tsCmp t) []).1 = spec o now ev (.tsCmp t) ∧
+    (checkSt o now ev (.checkType c) []).1 = spec o now ev (.checkType c) :=
+  ⟨doif_check_eq_spec_partial o now ev _ hl, doif_check_eq_spec_partial o now ev _ trivial,
    doif_check_eq_spec_partial o now ev _ trivial⟩
 
-example : check oAscii 0 (evF (.arr [.arr [], .obj []])) (.lenCmp ⟨.byte, [[102]], .eq, 7⟩) = true := by decide
+example : LenOK ⟨.byte, [[102]], .eq, 7⟩ (evF (.arr [.arr [], .obj []])) := fun _ t ht => by cases ht; rfl
+example : (checkSt oAscii 0 (evF (.arr [.arr [], .obj []])) (.lenCmp ⟨.byte, [[102]], .eq, 7⟩) []).1 = true := by decide
 
 /-- **value order**: the answer of a field leaf does not depend on the order in which its values
     are configured (any oracle, any data, no hypothesis on lower-casing). `contains_any` takes
     exactly one value (constructor check), hence the side condition. -/
 theorem doif_independent_of_value_order (o : Oracle) (now : Int) (ev : JTree) (f : FieldOp)
-    (vs : List (Option Bytes)) (hp : vs.Perm f.values) (hca : f.op = .containsAny → f.values.length ≤ 1) :
-    check o now ev (.field { f with values := vs }) = check o now ev (.field f) := by
-  simp only [check]
+    (vs : List (Option Bytes)) (tch : List Pos) (hp : vs.Perm f.values)
+    (hca : f.op = .containsAny → f.values.length ≤ 1) :
+    (checkSt o now ev (.field { f with values := vs }) tch).1 = (checkSt o now ev (.field f) tch).1 := by
+  simp only [checkSt]
   exact fieldCheck_perm o f vs (get ev f.path) hp hca
 
 example : [some [98], none, some [97]].Perm (fld .equal false [some [97], some [98], none]).values := by
   decide
 
-/-- **and / or / not are the boolean connectives**: the short-circuit loops of
-    `logicalNode.Check` compute the conjunction / disjunction of ALL operands' checks and the
-    negation of the single operand, for operand lists of any length and operands of any depth. -/
+/-- **and / or / not, as run**: one step of the short-circuit loops is `&&` / `||` / `!` of the
+    first operand's answer and the rest evaluated in the state the first operand left; skipping
+    the rest after a deciding operand does not change the answer. -/
+theorem logical_semantics_stateful (o : Oracle) (now : Int) (ev : JTree) (x : Node) (xs : List Node) (tch : List Pos) :
+    (checkSt o now ev (.and (x :: xs)) tch).1 =
+      ((checkSt o now ev x tch).1 && (checkSt o now ev (.and xs) (checkSt o now ev x tch).2).1) ∧
+    (checkSt o now ev (.or (x :: xs)) tch).1 =
+      ((checkSt o now ev x tch).1 || (checkSt o now ev (.or xs) (checkSt o now ev x tch).2).1) ∧
+    (checkSt o now ev (.not [x]) tch).1 = !(checkSt o now ev x tch).1 := by
+  refine ⟨?_, ?_, ?_⟩
+  · simp only [checkSt, checkAllSt]; cases (checkSt o now ev x tch).1 <;> simp
+  · simp only [checkSt, checkAnySt]; cases (checkSt o now ev x tch).1 <;> simp
+  · simp [checkSt, checkNotSt]
+
+/-- **and / or / not are the boolean connectives**: with every leaf looking at a freshly decoded
+    event (`check`; equal to the code's answer under `TreeOK`, see
+    `doif_answer_independent_of_history`) the short-circuit loops of `logicalNode.Check` compute
+    the conjunction / disjunction of ALL operands' checks and the negation of the single operand,
+    for operand lists of any length and operands of any depth. -/
 theorem logical_semantics (o : Oracle) (now : Int) (ev : JTree) (ops : List Node) (x : Node) :
     check o now ev (.and ops) = ops.all (check o now ev) ∧
     check o now ev (.or ops) = ops.any (check o now ev) ∧
@@ -140,6 +175,34 @@ theorem doif_counterexample_ci_prefix_truncation : ¬ DoIfEqSpec := fun h => by
     field ops one NUL byte, which `contains ""` (and prefix / suffix / regexes matching it) accepts. -/
 theorem doif_counterexample_container : ¬ DoIfEqSpec := fun h => by
   have := h oAscii 0 (evF (.obj [])) (.field (fld .contains true [some []]))
+  revert this; decide
+
+/-- the witness of the evaluation-order dependence: `{"o":{"x":"a\nb"},"c":<c>}` -/
+def evOrder (c : UInt8) : JTree :=
+  .obj [([111], .obj [([120], .str [97, 10, 98])]), ([99], .str [c])]
+
+/-- `or [ and [ c = "1", o.x = "zz" ], byte_len_cmp o eq 12 ]` — `{"x":"a\nb"}` is 12 bytes -/
+def ruleOrder : Node :=
+  .or [.and [.field ⟨.equal, [[99]], true, [some [49]]⟩, .field ⟨.equal, [[111], [120]], true, [some [122, 122]]⟩],
+       .lenCmp ⟨.byte, [[111]], .eq, 12⟩]
+
+/-- **counterexample (d), evaluation order**: the documented answer of `ruleOrder` is true whatever
+    `c` is (the guard branch never holds, `o` is 12 bytes long). The code agrees when `c = "0"`
+    (the `and` short-circuits, `o.x` is still raw); with `c = "1"` the second operand of the `and`
+    reads `o.x`, insane-json unescapes it in place, and byte_len_cmp then counts 11: the decision
+    depends on a short-cut taken elsewhere in the tree. -/
+theorem doif_counterexample_unescape_order :
+    spec oAscii 0 (evOrder 48) ruleOrder = true ∧ spec oAscii 0 (evOrder 49) ruleOrder = true ∧
+    (checkSt oAscii 0 (evOrder 48) ruleOrder []).1 = true ∧
+    (checkSt oAscii 0 (evOrder 49) ruleOrder []).1 = false ∧ ¬ DoIfEqSpec := by
+  refine ⟨by decide, by decide, by decide, by decide, fun h => ?_⟩
+  have := h oAscii 0 (evOrder 49) ruleOrder
+  revert this; decide
+
+/-- **counterexample (f), escaped field names**: `getNodeBytesSize` counts a field name by its
+    decoded length, so `{"q\"k":1}` (10 bytes) is measured as 9. -/
+theorem doif_counterexample_escaped_key : ¬ DoIfEqSpec := fun h => by
+  have := h oAscii 0 (evF (.obj [([113, 34, 107], .num [49])])) (.lenCmp ⟨.byte, [[102]], .eq, 10⟩)
   revert this; decide
 
 /-! ## match_fields -/
